@@ -46,6 +46,17 @@ def gen_cases(tier, seed):
                                     ["rsv", arb, "1", "0", hexs("R")], ["settle"], ["settle"]]
                 cases.append(("a%d" % cid, hdr + ["S=%d" % (nn - 1)], ops)); cid += 1
                 dist["resolve"] += 1
+    # a secondary is told that another member is the primary now (what a 'set-primary' from the winner of an election does):
+    # the old primary stays in its member table as a secondary; afterwards every command again
+    dist["after_primary_change"] = 0
+    for strat in ("none", "newer"):
+        names, hdr, base = setup(3, strat)
+        for told, new in (("n3", "n2"), ("n2", "n3")):
+            for c in ["set a 1", "set-safe a 0 x", "remove a", "increment c", "create-user u pw", "snapshot false", "get a"]:
+                ops = list(base) + [CC("n1", 1, "set a 0"), ["settle"], CC(told, 0, "set-primary %s" % new), ["settle"], ["settle"],
+                                    CC(told, 0, c), ["settle"], ["settle"]]
+                cases.append(("e%d" % cid, hdr + ["S=2"], ops)); cid += 1
+                dist["after_primary_change"] += 1
     for i in range(n):
         nn = rng.choice([2, 3])
         names, hdr, base = setup(nn, rng.choice(["none", "newer"]))
@@ -101,13 +112,21 @@ def oracle(case, io, mo):
                     fails.append(("not-silent", "step %d: %d messages after quiescence" % (i, x)))
                 pending_x = 0
                 last_cmd = None if case[2][i - 1][0] == "settle" else last_cmd
-        # a secondary never fans out: its links to non-primary nodes carry nothing after formation
+        # a secondary never fans out: after formation it sends only to the one node it holds to be the primary (its own
+        # member table decides: after a primary change that is the new primary), never to two nodes for one operation
         if prev_links is not None and i > formed_at(case):
             prim = [n for n, v in nodes.items() if v["role"] == "P"]
-            for (a, b), (sent, back) in links.items():
-                if a in nodes and nodes[a]["role"] == "S" and b not in prim and a != b:
-                    if (a, b) in prev_links and sent > prev_links[(a, b)][0]:
-                        fails.append(("secondary-fanned-out", "step %d: secondary %s sent %d lines to %s" % (i, a, sent - prev_links[(a, b)][0], b)))
+            for a in nodes:
+                if nodes[a]["role"] != "S":
+                    continue
+                believed = [e.split(":")[0] for e in nodes[a]["members"].split(",") if e and e.split(":")[1] == "Primary"]
+                targets = [b for (x, b), (sent, back) in links.items()
+                           if x == a and b != a and (x, b) in prev_links and sent > prev_links[(x, b)][0]]
+                for b in targets:
+                    if b not in prim and b not in believed:
+                        fails.append(("secondary-fanned-out", "step %d: secondary %s sent %d lines to %s" % (i, a, links[(a, b)][0] - prev_links[(a, b)][0], b)))
+                if len(targets) > 1:
+                    fails.append(("secondary-sent-to-two-nodes", "step %d: secondary %s sent to %s for one operation" % (i, a, sorted(targets))))
         prev_links = links
     return fails
 
